@@ -150,8 +150,8 @@ pub fn random_value(r: &mut Rng, depth: usize) -> RV {
     }
 }
 
-pub const STRING_CHARS: [char; 40] = [
-    'a', 'b', 'Z', '0', '9', ' ', '\t', '\n', '"', '\\', '/', '*', '+', '-', '(', ')', ',', ';', '=', '!', '&', '|',
+pub const STRING_CHARS: [char; 41] = [
+    'a', 'b', 'Z', '0', '9', ' ', '\t', '\n', '\r', '"', '\\', '/', '*', '+', '-', '(', ')', ',', ';', '=', '!', '&', '|',
     '<', '>', '%', '^', '.', 'e', 'x', '_', 'ä', 'ß', 'İ', '日', '😀', '\u{301}', '\u{0}', '\u{a0}', '\u{2028}', '#',
 ];
 
@@ -352,10 +352,39 @@ impl<'a> AstGen<'a> {
 // ---------------------------------------------------------------------------------------------------
 // separator plans (RefRender for token lists)
 
-pub const BLOCK_COMMENTS: [&str; 8] = [
-    "/**/", "/* x */", "/*\"*/", "/* // */", "/***/", "/*/ */", "/* \n */", "/* a = 1; */",
+pub const BLOCK_COMMENTS: [&str; 12] = [
+    "/**/", "/* x */", "/*\"*/", "/* // */", "/***/", "/*/ */", "/* \n */", "/* a = 1; */", "/* café */", "/*日本*/", "/* 😀\u{301} */",
+    "/*\r+ 1\r\n*/",
 ];
-pub const LINE_COMMENTS: [&str; 4] = ["//\n", "// x */ /* \n", "//\"\n", "///\n"];
+pub const LINE_COMMENTS: [&str; 8] = [
+    "//\n", "// x */ /* \n", "//\"\n", "///\n", "// one\r+ 2\n", "//\r\n", "// café 日本 + 1\n", "// \u{2028}+ 1\u{85}- 2\n",
+];
+
+/// characters a comment body is drawn from (anything goes inside a comment)
+const COMMENT_CHARS: [char; 28] = [
+    'a', '1', ' ', '+', '-', '*', '/', '=', '"', '\\', '(', ')', ';', ',', '\r', '\t', 'é', '日', '😀', '\u{301}', '\u{2028}', '\u{85}',
+    '\u{b}', '&', '|', '<', 'e', '.',
+];
+
+fn random_comment(r: &mut Rng, block: bool) -> String {
+    let n = r.below(8);
+    let mut body = String::new();
+    for _ in 0..n {
+        body.push(*r.pick(&COMMENT_CHARS));
+    }
+    if block {
+        // the body must not close the comment itself
+        while body.contains("*/") {
+            body = body.replace("*/", "* /");
+        }
+        if body.ends_with('*') {
+            body.push(' ');
+        }
+        format!("/*{}*/", body)
+    } else {
+        format!("//{}\n", body)
+    }
+}
 
 fn is_tight(t: &Tok) -> bool {
     t.is_op("(") || t.is_op(")") || t.is_op(",") || t.is_op(";") || matches!(t, Tok::Str(_))
@@ -406,13 +435,21 @@ pub fn random_separator(r: &mut Rng, prev_is_slash: bool, last_gap: bool) -> Str
                 if first && prev_is_slash {
                     s.push(*r.pick(&WHITESPACE));
                 }
-                s.push_str(*r.pick(&BLOCK_COMMENTS[..]));
+                if r.chance(1, 2) {
+                    s.push_str(*r.pick(&BLOCK_COMMENTS[..]));
+                } else {
+                    s.push_str(&random_comment(r, true));
+                }
             },
             5 => {
                 if first && prev_is_slash {
                     s.push(*r.pick(&WHITESPACE));
                 }
-                s.push_str(*r.pick(&LINE_COMMENTS[..]));
+                if r.chance(1, 2) {
+                    s.push_str(*r.pick(&LINE_COMMENTS[..]));
+                } else {
+                    s.push_str(&random_comment(r, false));
+                }
             },
             6 => {
                 for _ in 0..r.below(4) + 1 {
